@@ -82,6 +82,13 @@ CHECKS = {
         note="Existence of a default is decided from the descriptor; the expected value from an instance constructed with no arguments in the same world (C09 checks that against the descriptor).",
         ref="DESIGN.md section 4, C08",
     ),
+    "C10": dict(
+        level="exploration",
+        technique="property-based testing over a class-definition grammar: Hypothesis-generated instance pools; algebraic laws of == over all pairs/triples, attribute-wise reference comparison, deepcopy/rebuild round-trips, repr parsed against the descriptor",
+        text="Hypothesis generates class worlds (incl. compare=False / repr=False attributes, Any-typed attributes holding functions, classes, modules and bound methods) and pools of instances (random histories, one-attribute-different partners for every attribute position, cross-class twins, self-referential variants); == must be reflexive, symmetric, transitive and agree with an independent attribute-wise comparison for same-class operands, deepcopy(x) == x, rebuilding from own values gives an equal instance, and repr never raises and lists exactly the repr-enabled attributes in declaration order. Sampled search.",
+        note="Trusts the reference comparison in vf/props/c10.py (values compared with ==, bound methods by wrapped function) and the bracket/quote-aware repr scanner; cyclic structures only for repr.",
+        ref="DESIGN.md section 4, C10",
+    ),
 }
 
 NOT_YET = "check not built yet in this revision (see DESIGN.md section 9 for the order); nothing is claimed"
